@@ -140,8 +140,9 @@ func checkC06(p *Prog, r *Report) {
 // c06IdentifierToken: the lexer keeps the text of the LAST identifier it saw; it is not cleared
 // by later tokens.  Code that reads it for a token that is not an identifier compares stale text
 // (a table named "json" makes the '(' after it look like the JSON keyword).
-func c06IdentifierToken(p *Prog, r *Report) {
-	const rule = "C06.identifier-token"
+func c06IdentifierToken(p *Prog, r *Report) { c06IdentifierTokenAs(p, r, "C06.identifier-token") }
+
+func c06IdentifierTokenAs(p *Prog, r *Report, rule string) {
 	r.Rule(rule, "the lexer's identifier text is read only where the current token is known to be an identifier: under a test of the token against tkIdentifier in the same function, or at the entry of a function all of whose call sites are so guarded")
 	lex := p.Named("parser", "lexer")
 	tkId := p.constOf("parser", "tkIdentifier")
@@ -196,6 +197,70 @@ func c06IdentifierToken(p *Prog, r *Report) {
 			})
 		}
 	}
+	// stillCurrent: between the branch that established "the token is an identifier" and the read no
+	// call can advance the lexer (the text read would be that of a later token, or stale)
+	stillCurrent := func(cond ssa.Value, truth bool, in ssa.Instruction) bool {
+		fn := in.Parent()
+		var gb, succ *ssa.BasicBlock
+		for _, b := range fn.Blocks {
+			ifi, ok := lastIf(b)
+			if !ok {
+				continue
+			}
+			c, neg := stripNot(ifi.Cond)
+			if c != cond {
+				continue
+			}
+			for k, sc := range b.Succs {
+				if ((k == 0) != neg) == truth && len(sc.Preds) == 1 && sc.Dominates(in.Block()) {
+					gb, succ = b, sc
+				}
+			}
+		}
+		if gb == nil {
+			return true
+		}
+		// blocks on a path succ -> in.Block() that does not pass through the guard block again
+		fwd := map[*ssa.BasicBlock]bool{}
+		stack := []*ssa.BasicBlock{succ}
+		for len(stack) > 0 {
+			b := stack[len(stack)-1]
+			stack = stack[:len(stack)-1]
+			if fwd[b] || b == gb {
+				continue
+			}
+			fwd[b] = true
+			if b == in.Block() {
+				continue
+			}
+			stack = append(stack, b.Succs...)
+		}
+		canReach := map[*ssa.BasicBlock]bool{}
+		var mark func(b *ssa.BasicBlock)
+		mark = func(b *ssa.BasicBlock) {
+			if canReach[b] || !fwd[b] {
+				return
+			}
+			canReach[b] = true
+			for _, pr := range b.Preds {
+				mark(pr)
+			}
+		}
+		mark(in.Block())
+		for b := range canReach {
+			for _, bi := range b.Instrs {
+				if b == in.Block() && bi == in {
+					break
+				}
+				if c, ok := bi.(ssa.CallInstruction); ok {
+					if callee := c.Common().StaticCallee(); callee != nil && advances[callee] {
+						return false
+					}
+				}
+			}
+		}
+		return true
+	}
 	guarded := func(in ssa.Instruction) bool {
 		for _, ct := range dominatingConds(in.Block()) {
 			bo, ok := ct.Cond.(*ssa.BinOp)
@@ -207,7 +272,7 @@ func c06IdentifierToken(p *Prog, r *Report) {
 				return ok && c.Value != nil && c.Value.ExactString() == tkId.ExactString() && typeIs(c.Type(), "parser", "token")
 			}
 			if isId(bo.X) || isId(bo.Y) {
-				if (bo.Op == token.EQL && ct.Truth) || (bo.Op == token.NEQ && !ct.Truth) {
+				if ((bo.Op == token.EQL && ct.Truth) || (bo.Op == token.NEQ && !ct.Truth)) && stillCurrent(ct.Cond, ct.Truth, in) {
 					return true
 				}
 			}
@@ -552,27 +617,50 @@ func c06Lwt(p *Prog, r *Report, fam map[*ssa.Function]bool) {
 			return has
 		}
 		baseModel := familyModel(p, fam, nil)
+		var bad []string
+		termFn := p.Func("parser", "isDMLTerminator")
 		s.Model = func(sm *Sim, st *State, call ssa.CallInstruction, callee *ssa.Function) []*State {
 			if scanHelper(callee) {
 				return nil
+			}
+			// every token after the statement body that is not a terminator is tested for IF before the
+			// scan moves on to the next token
+			if callee != nil && isGeneratedLexer(callee) {
+				if tl := st.aux["tail"]; tl != "" && st.aux["ifTested"] != tl {
+					bad = append(bad, p.Pos(call.Pos())+": the scan for IF moves on to the next token without having compared the current one with IF: an IF clause that is not the first thing after the statement body (INSERT ... JSON '{}' DEFAULT UNSET IF NOT EXISTS) is missed")
+				}
+				delete(st.aux, "tail")
+				delete(st.aux, "ifTested")
+				return baseModel(sm, st, call, callee)
+			}
+			if callee != nil && callee == termFn && len(call.Common().Args) == 1 {
+				t, f := st.clone(), st.clone()
+				SetCallResult(t, call, avBool(true))
+				SetCallResult(f, call, avBool(false))
+				f.aux["tail"] = call.Common().Args[0].Name()
+				return []*State{t, f}
 			}
 			return baseModel(sm, st, call, callee)
 		}
 		s.Inline = scanHelper
 		cmp := 0
 		s.OnBranch = func(st *State, cond ssa.Value, truth bool) {
-			if bo, ok := cond.(*ssa.BinOp); ok && bo.Op == token.EQL {
-				for _, side := range []ssa.Value{bo.X, bo.Y} {
+			if bo, ok := cond.(*ssa.BinOp); ok && (bo.Op == token.EQL || bo.Op == token.NEQ) {
+				for i, side := range []ssa.Value{bo.X, bo.Y} {
 					if c, ok := side.(*ssa.Const); ok && c.Value != nil && typeIs(c.Type(), "parser", "token") && c.Value.ExactString() == tkIf {
 						cmp++
-						if truth {
+						other := bo.Y
+						if i == 1 {
+							other = bo.X
+						}
+						st.aux["ifTested"] = other.Name()
+						if truth && bo.Op == token.EQL {
 							st.aux["sawIf"] = "1"
 						}
 					}
 				}
 			}
 		}
-		var bad []string
 		trueWithoutScan := 0
 		for _, o := range s.Run(fn, newState()) {
 			if o.Panic {
